@@ -146,14 +146,31 @@ def huge_piece_probe(ctx, rep):
     mn, mx = 4096, 65536
     key = ctx.rng.randbytes(16)
 
+    class TooMuch(Exception):
+        pass
+
     def cut(pieces):
-        return [len(c) for c in gclmulchunker(min_length=mn, max_length=mx)(iter(pieces), params=key)]
-    whole = cut([data])
-    step = 16 << 20
-    by16 = cut([data[i:i + step] for i in range(0, len(data), step)])
-    by1 = cut([data[i:i + (1 << 20)] for i in range(0, len(data), 1 << 20)])
+        out, total, pos = [], 0, 0
+        for c in gclmulchunker(min_length=mn, max_length=mx)(iter(pieces), params=key):
+            # every chunk is the next bytes of the stream (checked as it comes: a chunker that emits data again never ends in time)
+            if data[pos:pos + len(c)] != c:
+                raise TooMuch(f'chunk #{len(out)} ({len(c)} bytes) is not the {len(c)} bytes of the stream at offset {pos}')
+            pos += len(c)
+            out.append(len(c))
+        return out
     rep.case(('huge-piece', len(data)), nontrivial=True)
     rep.count('huge_piece_bytes', len(data))
+    step = 16 << 20
+    try:
+        whole = cut([data])
+        by16 = cut([data[i:i + step] for i in range(0, len(data), step)])
+        by1 = cut([data[i:i + (1 << 20)] for i in range(0, len(data), 1 << 20)])
+        # pieces that are not multiples of anything: 8 MiB + 1 byte
+        by8 = cut([data[i:i + (8 << 20) + 1] for i in range(0, len(data), (8 << 20) + 1)])
+    except TooMuch as e:
+        rep.violations.append({'what': f'a stream of {len(data)} bytes (min {mn}, max {mx}) handed over in large pieces: {e}',
+                               'signature': {'kind': 'lossless', 'probe': 'huge'}, 'replay': {'probe': 'huge'}})
+        return
 
     def head(lengths):
         out, pos = [], 0
@@ -162,7 +179,7 @@ def huge_piece_probe(ctx, rep):
                 out.append(n)
             pos += n
         return out
-    for name, other in (('16 MiB pieces', by16), ('1 MiB pieces', by1)):
+    for name, other in (('16 MiB pieces', by16), ('1 MiB pieces', by1), ('pieces of 8 MiB + 1 byte', by8)):
         if sum(whole) != len(data) or sum(other) != len(data):
             rep.violations.append({'what': f'a stream of {len(data)} bytes handed over as one piece / {name}: chunks do not add up to the stream',
                                    'signature': {'kind': 'lossless', 'probe': 'huge'}, 'replay': {'probe': 'huge'}})
@@ -254,6 +271,10 @@ def gen_key(rng):
         return b''            # unencrypted repository: params None/empty -> 0xFF * 16
     if k < 0.3:
         return rng.randbytes(rng.choice([1, 2, 3, 5, 8, 15]))   # repeated up to 16
+    if k < 0.42:
+        # keys with structure: one half zero / all ones / a single bit (window values that are all equal or all zero then)
+        half = rng.choice([bytes(8), b'\xff' * 8, (1 << rng.randrange(64)).to_bytes(8, 'little')])
+        return rng.randbytes(8) + half if rng.random() < 0.7 else half + rng.randbytes(8)
     return rng.randbytes(16)
 
 
